@@ -95,6 +95,9 @@ def classify(diags, gen):
                        r"value may be out of range|ensures not satisfied|may be out of range|"
                        r"function body check|while loop: not all errors may have been reported",
                        msg, re.I)
+        if re.search(r"cannot be invariant_except_break|unless #\[verifier|is not allowed|not supported", msg, re.I):
+            tool.append(msg)
+            continue
         if re.search(r"resource limit|rlimit", msg, re.I):
             tool.append("rlimit: " + msg)
             continue
@@ -161,6 +164,9 @@ def check_unit(template, tree, seed=None, canary=True, tag=""):
         res.reason = "spec error: %s" % e
         return res
     res.gen = gen
+    if re.search(r"\b(assume|admit)\s*\(", gen.text):
+        res.reason = "contract file contains assume(/admit( : refused (DESIGN 1.5)"
+        return res
     res.unit = gen.meta.get("unit") or name
     res.props = gen.meta.get("props", [])
     tag = tag.replace(".", "_")
